@@ -2034,4 +2034,1589 @@ theorem csv_roundtrip_framing' (delim : Nat) (hasHeader : Bool) (rows : List (Li
   rw [hdel, csvRecords_rows delim rows hok hd1 hd2]
   cases rows.map (·.map (·.2)) <;> rfl
 
+
+/-! ## D. the whole ARFF reader: respellings -/
+
+
+theorem dropWhile_all {α} (p : α → Bool) (s : List α) (h : ∀ c ∈ s, p c = true) : s.dropWhile p = [] := by
+  induction s with
+  | nil => rfl
+  | cons a s ih => simp [List.dropWhile, h a (by simp), ih (fun c hc => h c (by simp [hc]))]
+
+theorem dropWhile_all_append {α} (p : α → Bool) (s t : List α) (h : ∀ c ∈ s, p c = true) :
+    (s ++ t).dropWhile p = t.dropWhile p := by
+  induction s with
+  | nil => rfl
+  | cons a s ih => simp [List.dropWhile, h a (by simp), ih (fun c hc => h c (by simp [hc]))]
+
+/-- white space appended to a line (its terminator, trailing blanks) is stripped -/
+theorem strip_append_ws (l s : Text) (hs : ∀ c ∈ s, isPySpace c = true) : strip (l ++ s) = strip l := by
+  unfold strip
+  induction l with
+  | nil =>
+    simp only [List.nil_append, List.dropWhile]
+    rw [dropWhile_all isPySpace s hs]
+  | cons c l ih =>
+    by_cases hc : isPySpace c = true
+    · simpa [List.dropWhile, hc] using ih
+    · have hc' : isPySpace c = false := by simpa using hc
+      simp only [List.cons_append, List.dropWhile, hc']
+      rw [← List.cons_append, List.reverse_append,
+        dropWhile_all_append isPySpace s.reverse _ (fun x hx => hs x (by simpa using hx))]
+
+/-- a line that is blank after stripping disappears -/
+theorem arffNormalize_blank (a c : List Text) (b : Text) (hb : strip b = []) :
+    arffNormalize (a ++ b :: c) = arffNormalize (a ++ c) := by
+  simp [arffNormalize, hb]
+
+/-- terminators / surrounding white space on a line do not matter -/
+theorem arffNormalize_ws (a c : List Text) (l s : Text) (hs : ∀ x ∈ s, isPySpace x = true) :
+    arffNormalize (a ++ (l ++ s) :: c) = arffNormalize (a ++ l :: c) := by
+  simp [arffNormalize, strip_append_ws l s hs]
+
+theorem arff_framing' (l1 l2 : List Text) (h : arffNormalize l1 = arffNormalize l2) : arffRead l1 = arffRead l2 := by
+  unfold arffRead; rw [h]
+
+
+
+
+
+theorem takeWhile_split {α} (p : α → Bool) (pre post : List α) (x : α) (hpre : ∀ l ∈ pre, p l = true) :
+    (pre ++ x :: post).takeWhile p = if p x then pre ++ x :: post.takeWhile p else pre := by
+  induction pre with
+  | nil => by_cases h : p x = true <;> simp [List.takeWhile, h]
+  | cons a pre ih =>
+    simp only [List.cons_append, List.takeWhile, hpre a (by simp)]
+    rw [ih (fun l hl => hpre l (by simp [hl]))]
+    by_cases h : p x = true <;> simp [h]
+
+theorem dropWhile_split {α} (p : α → Bool) (pre post : List α) (x : α) (hpre : ∀ l ∈ pre, p l = true) :
+    (pre ++ x :: post).dropWhile p = if p x then post.dropWhile p else x :: post := by
+  induction pre with
+  | nil => by_cases h : p x = true <;> simp [List.dropWhile, h]
+  | cons a pre ih =>
+    simp only [List.cons_append, List.dropWhile, hpre a (by simp)]
+    exact ih (fun l hl => hpre l (by simp [hl]))
+
+theorem takeWhile_all_append {α} (p : α → Bool) (s t : List α) (h : ∀ c ∈ s, p c = true) :
+    (s ++ t).takeWhile p = s ++ t.takeWhile p := by
+  induction s with
+  | nil => rfl
+  | cons a s ih => simp [List.takeWhile, h a (by simp), ih (fun c hc => h c (by simp [hc]))]
+
+/-- the part of `arffReadN` after the header/data split -/
+def arffReadParts (attrLines data0 : List Text) : Except Err ArffResult :=
+  let data := data0.dropWhile (fun l => l.head? = some PCT)
+  match data with
+  | [] => .ok .empty
+  | first :: _ =>
+    let isDense := !(first.head? = some LBRACE) || !(first.getLast? = some RBRACE)
+    match arffAttrs isDense [] attrLines with
+    | .error e => .error e
+    | .ok [] => .error .valueError
+    | .ok attrs =>
+      let names := attrs.map (·.1)
+      let encs := attrs.map (·.2)
+      if isDense then
+        match denseRows encs attrLines.length ALRF.init data with
+        | .error e => .error e
+        | .ok rows => .ok (.dense names rows)
+      else
+        match sparseRows names encs attrLines.length data with
+        | .error e => .error e
+        | .ok rows => .ok (.sparse names rows)
+
+theorem arffReadN_parts (ls : List Text) :
+    arffReadN ls = arffReadParts ((ls.takeWhile (fun l => lowerAscii l ≠ kwData)).filter (fun l => lowerAscii (l.take 5) = kwAttr))
+      ((ls.dropWhile (fun l => lowerAscii l ≠ kwData)).drop 1) := rfl
+
+/-- keyword case of the `@data` line -/
+theorem arff_data_keyword' (pre post : List Text) (d1 d2 : Text) (h1 : lowerAscii d1 = kwData) (h2 : lowerAscii d2 = kwData)
+    (hpre : ∀ l ∈ pre, lowerAscii l ≠ kwData) :
+    arffReadN (pre ++ d1 :: post) = arffReadN (pre ++ d2 :: post) := by
+  have hp : ∀ l ∈ pre, (fun l => decide (lowerAscii l ≠ kwData)) l = true := by
+    intro l hl; simpa using hpre l hl
+  simp only [arffReadN_parts]
+  rw [takeWhile_split _ pre post d1 hp, takeWhile_split _ pre post d2 hp,
+      dropWhile_split _ pre post d1 hp, dropWhile_split _ pre post d2 hp]
+  simp [h1, h2]
+
+/-- a header line that is neither an attribute line nor `@data` (a `%` comment, `@relation`) is ignored -/
+theorem arff_header_other_line' (pre post : List Text) (j : Text) (hj1 : lowerAscii j ≠ kwData)
+    (hj2 : lowerAscii (j.take 5) ≠ kwAttr) (hpre : ∀ l ∈ pre, lowerAscii l ≠ kwData) :
+    arffReadN (pre ++ j :: post) = arffReadN (pre ++ post) := by
+  have hp : ∀ l ∈ pre, (fun l => decide (lowerAscii l ≠ kwData)) l = true := by
+    intro l hl; simpa using hpre l hl
+  simp only [arffReadN_parts]
+  rw [takeWhile_all_append _ pre _ hp, takeWhile_all_append _ pre _ hp, dropWhile_all_append _ pre _ hp,
+      dropWhile_all_append _ pre _ hp]
+  simp [List.takeWhile, List.dropWhile, hj1, hj2]
+
+theorem denseRows_comment (encs : List Enc) (n : Nat) (s : ALRF) (a b : List Text) (c : Text) (hc : c.head? = some PCT) :
+    denseRows encs n s (a ++ c :: b) = denseRows encs n s (a ++ b) := by
+  induction a generalizing s with
+  | nil => simp [denseRows, hc]
+  | cons x a ih =>
+    simp only [List.cons_append, denseRows]
+    split
+    · exact ih s
+    · cases arffLineStepF n s x with
+      | error e => rfl
+      | ok r =>
+        obtain ⟨s1, raw⟩ := r
+        simp only
+        cases encodeRow encs raw with
+        | error e => rfl
+        | ok cells => simp only [ih s1]
+
+theorem sparseRows_comment (names : List Text) (encs : List Enc) (n : Nat) (a b : List Text) (c : Text) (hc : c.head? = some PCT) :
+    sparseRows names encs n (a ++ c :: b) = sparseRows names encs n (a ++ b) := by
+  induction a with
+  | nil => simp [sparseRows, hc]
+  | cons x a ih =>
+    simp only [List.cons_append, sparseRows]
+    split
+    · exact ih
+    · cases arffSparseLine n x with
+      | error e => rfl
+      | ok raw =>
+        simp only
+        split
+        · rfl
+        · simp only [ih]
+
+/-- a `%` comment line anywhere in the data section is ignored -/
+theorem arffReadParts_comment (attrLines a b : List Text) (c : Text) (hc : c.head? = some PCT) :
+    arffReadParts attrLines (a ++ c :: b) = arffReadParts attrLines (a ++ b) := by
+  unfold arffReadParts
+  by_cases hall : ∀ l ∈ a, (fun l : Text => decide (l.head? = some PCT)) l = true
+  · have e1 : (a ++ c :: b).dropWhile (fun l => decide (l.head? = some PCT)) = b.dropWhile (fun l => decide (l.head? = some PCT)) := by
+      rw [dropWhile_split _ a b c hall]; simp [hc]
+    have e2 : (a ++ b).dropWhile (fun l => decide (l.head? = some PCT)) = b.dropWhile (fun l => decide (l.head? = some PCT)) :=
+      dropWhile_all_append _ a b hall
+    simp only [e1, e2]
+  · -- some line of `a` is not a comment: split `a` there
+    have : ∃ a1 x a2, a = a1 ++ x :: a2 ∧ (∀ l ∈ a1, (fun l : Text => decide (l.head? = some PCT)) l = true) ∧ ¬ (x.head? = some PCT) := by
+      clear hc
+      induction a with
+      | nil => simp at hall
+      | cons y a ih =>
+        by_cases hy : y.head? = some PCT
+        · have : ¬ ∀ l ∈ a, (fun l : Text => decide (l.head? = some PCT)) l = true := by
+            intro h; apply hall; intro l hl
+            simp only [List.mem_cons] at hl
+            rcases hl with rfl | hl
+            · simpa using hy
+            · exact h l hl
+          obtain ⟨a1, x, a2, he, h1, h2⟩ := ih this
+          exact ⟨y :: a1, x, a2, by simp [he], by
+            intro l hl; simp only [List.mem_cons] at hl
+            rcases hl with rfl | hl
+            · simpa using hy
+            · exact h1 l hl, h2⟩
+        · exact ⟨[], y, a, rfl, by simp, hy⟩
+    obtain ⟨a1, x, a2, he, h1, h2⟩ := this
+    subst he
+    have e1 : (a1 ++ x :: a2 ++ c :: b).dropWhile (fun l => decide (l.head? = some PCT)) = x :: (a2 ++ c :: b) := by
+      rw [List.append_assoc, List.cons_append, dropWhile_split _ a1 _ x h1]; simp [h2]
+    have e2 : (a1 ++ x :: a2 ++ b).dropWhile (fun l => decide (l.head? = some PCT)) = x :: (a2 ++ b) := by
+      rw [List.append_assoc, List.cons_append, dropWhile_split _ a1 _ x h1]; simp [h2]
+    simp only [e1, e2]
+    cases arffAttrs (!decide (x.head? = some LBRACE) || !decide (x.getLast? = some RBRACE)) [] attrLines with
+    | error e => rfl
+    | ok attrs =>
+      cases attrs with
+      | nil => rfl
+      | cons at1 ats =>
+        simp only
+        rw [← List.cons_append, denseRows_comment _ _ _ (x :: a2) b c hc, sparseRows_comment _ _ _ (x :: a2) b c hc]
+        rfl
+
+theorem arff_data_comment' (hdr a b : List Text) (kw c : Text) (hkw : lowerAscii kw = kwData)
+    (hhdr : ∀ l ∈ hdr, lowerAscii l ≠ kwData) (hc : c.head? = some PCT) :
+    arffReadN (hdr ++ kw :: (a ++ c :: b)) = arffReadN (hdr ++ kw :: (a ++ b)) := by
+  have hp : ∀ l ∈ hdr, (fun l => decide (lowerAscii l ≠ kwData)) l = true := by
+    intro l hl; simpa using hhdr l hl
+  simp only [arffReadN_parts]
+  rw [takeWhile_split _ hdr _ kw hp, takeWhile_split _ hdr _ kw hp, dropWhile_split _ hdr _ kw hp, dropWhile_split _ hdr _ kw hp]
+  simp only [hkw, ne_eq, not_true_eq_false, decide_false, Bool.false_eq_true, if_false, List.drop_succ_cons, List.drop_zero]
+  exact arffReadParts_comment _ a b c hc
+
+
+
+
+
+theorem lowerAscii_head (t : Text) : (lowerAscii t).head? = t.head?.map (fun c => if 65 ≤ c ∧ c ≤ 90 then c + 32 else c) := by
+  cases t <;> simp [lowerAscii]
+
+/-- the type keyword may be written in any case -/
+theorem arff_type_keyword' (isDense : Bool) (e1 e2 : Text) (h : lowerAscii e1 = lowerAscii e2)
+    (h1 : e1.head? ≠ some LBRACE) (h2 : e2.head? ≠ some LBRACE) : arffEncoder isDense e1 = arffEncoder isDense e2 := by
+  unfold arffEncoder
+  simp only [h, h1, h2, if_false]
+
+theorem lowerAscii_length (t : Text) : (lowerAscii t).length = t.length := by simp [lowerAscii]
+
+theorem lowerAscii_take (t : Text) (k : Nat) : lowerAscii (t.take k) = (lowerAscii t).take k := by
+  simp [lowerAscii, List.map_take]
+
+theorem attrLine_facts (a : Text) (h : lowerAscii (a.take 10) = kwAttribute) :
+    lowerAscii (a.take 5) = kwAttr ∧ lowerAscii a ≠ kwData := by
+  constructor
+  · have : (a.take 10).take 5 = a.take 5 := by simp [List.take_take]
+    rw [← this, lowerAscii_take, h]; rfl
+  · intro hd
+    have h10 : (lowerAscii (a.take 10)).length = 10 := by rw [h]; rfl
+    rw [lowerAscii_length, List.length_take] at h10
+    have : (lowerAscii a).length = 5 := by rw [hd]; rfl
+    rw [lowerAscii_length] at this
+    omega
+
+theorem arffAttrs_congr (isDense : Bool) (seen : List Text) (x y : List Text) (a1 a2 : Text)
+    (h1 : lowerAscii (a1.take 10) = kwAttribute) (h2 : lowerAscii (a2.take 10) = kwAttribute) (hr : a1.drop 11 = a2.drop 11) :
+    arffAttrs isDense seen (x ++ a1 :: y) = arffAttrs isDense seen (x ++ a2 :: y) := by
+  induction x generalizing seen with
+  | nil => simp only [List.nil_append, arffAttrs, h1, h2, hr]
+  | cons l x ih =>
+    simp only [List.cons_append, arffAttrs]
+    split
+    · cases arffSplit .ws (some 2) (l.drop 11) with
+      | error e => rfl
+      | ok r =>
+        match r with
+        | [] => rfl
+        | [_] => rfl
+        | [hd, enc] =>
+          simp only
+          split
+          · rfl
+          · cases arffEncoder isDense enc with
+            | error e => rfl
+            | ok en => simp only [ih (hd :: seen)]
+        | _ :: _ :: _ :: _ => rfl
+    · exact ih seen
+
+/-- the `@attribute` keyword may be written in any case (and be followed by any one separator character) -/
+theorem arff_attribute_keyword' (pre post : List Text) (a1 a2 : Text)
+    (h1 : lowerAscii (a1.take 10) = kwAttribute) (h2 : lowerAscii (a2.take 10) = kwAttribute) (hr : a1.drop 11 = a2.drop 11)
+    (hpre : ∀ l ∈ pre, lowerAscii l ≠ kwData) :
+    arffReadN (pre ++ a1 :: post) = arffReadN (pre ++ a2 :: post) := by
+  have hp : ∀ l ∈ pre, (fun l => decide (lowerAscii l ≠ kwData)) l = true := by
+    intro l hl; simpa using hpre l hl
+  obtain ⟨f1, g1⟩ := attrLine_facts a1 h1
+  obtain ⟨f2, g2⟩ := attrLine_facts a2 h2
+  simp only [arffReadN_parts]
+  rw [takeWhile_all_append _ pre _ hp, takeWhile_all_append _ pre _ hp, dropWhile_all_append _ pre _ hp,
+      dropWhile_all_append _ pre _ hp]
+  simp only [List.takeWhile, List.dropWhile, g1, g2, ne_eq, not_false_eq_true, decide_true, List.filter_append, List.filter_cons, f1, f2, if_true]
+  unfold arffReadParts
+  simp only [List.length_append, List.length_cons]
+  split
+  · rfl
+  · rw [arffAttrs_congr _ [] _ _ a1 a2 h1 h2 hr]
+
+
+
+/-! ## D.2 sparse rows -/
+
+
+theorem sparseTokOk_mem (t : Text) (h : sparseTokOk t = true) :
+    t ≠ [] ∧ ∀ c ∈ t, isPySpace c = false ∧ c ≠ COMMA := by
+  unfold sparseTokOk at h
+  simp only [Bool.and_eq_true, decide_eq_true_eq] at h
+  refine ⟨h.1, fun c hc => ?_⟩
+  have := List.all_eq_true.mp h.2 c hc
+  simpa using this
+
+theorem ssg_tok (cur tok rest : Text) (h : ∀ c ∈ tok, isPySpace c = false ∧ c ≠ COMMA) :
+    sparseSplitGo cur 0 (tok ++ rest) = sparseSplitGo (cur ++ tok) 0 rest := by
+  induction tok generalizing cur with
+  | nil => simp
+  | cons c tok ih =>
+    have hc := h c (by simp)
+    simp only [List.cons_append, sparseSplitGo, hc.1, hc.2, Bool.false_eq_true, if_false, if_true]
+    rw [ih (cur ++ [c]) (fun d hd => h d (by simp [hd]))]
+    simp
+
+theorem ssg_tok_start (st : Nat) (hst : st ≠ 0) (tok rest : Text) (hne : tok ≠ [])
+    (h : ∀ c ∈ tok, isPySpace c = false ∧ c ≠ COMMA) :
+    sparseSplitGo [] st (tok ++ rest) = sparseSplitGo tok 0 rest := by
+  cases tok with
+  | nil => exact absurd rfl hne
+  | cons c tok =>
+    have hc := h c (by simp)
+    simp only [List.cons_append, sparseSplitGo, hc.1, hc.2, hst, Bool.false_eq_true, if_false]
+    rw [ssg_tok [c] tok rest (fun d hd => h d (by simp [hd]))]
+    simp
+
+theorem ssg_spaces (k : Nat) (rest : Text) : sparseSplitGo [] 2 (List.replicate k 32 ++ rest) = sparseSplitGo [] 2 rest := by
+  induction k with
+  | zero => simp
+  | succ k ih =>
+    have : isPySpace 32 = true := by decide
+    simp only [List.replicate_succ, List.cons_append, sparseSplitGo, this, if_true]
+    simpa using ih
+
+def flatItems (r : List (Text × Text)) : List Text := r.flatMap (fun p => [p.1, p.2])
+
+theorem isDigit_tok (d : Text) (h : d.all isDigit = true) : ∀ c ∈ d, isPySpace c = false ∧ c ≠ COMMA := by
+  intro c hc
+  have := List.all_eq_true.mp h c hc
+  unfold isDigit at this
+  simp only [Bool.and_eq_true, decide_eq_true_eq] at this
+  constructor
+  · unfold isPySpace
+    simp only [Bool.or_eq_false_iff, Bool.and_eq_false_iff, decide_eq_false_iff_not, beq_eq_false_iff_ne]
+    refine ⟨⟨⟨⟨⟨⟨⟨⟨⟨⟨?_, ?_⟩, ?_⟩, ?_⟩, ?_⟩, ?_⟩, ?_⟩, ?_⟩, ?_⟩, ?_⟩, ?_⟩ <;> omega
+  · intro h'; simp [COMMA] at h'; omega
+
+theorem sparseSplit_items (pad : Nat) (st : Nat) (hst : st = 0 ∨ st = 2) (d v : Text) (r : List (Text × Text))
+    (hok : ∀ p ∈ (d, v) :: r, p.1 ≠ [] ∧ p.1.all isDigit = true ∧ sparseTokOk p.2 = true) :
+    sparseSplitGo [] st (sparseWriteItems pad ((d, v) :: r)) = d :: v :: flatItems r := by
+  induction r generalizing d v st with
+  | nil =>
+    obtain ⟨hd1, hd2, hv⟩ := hok (d, v) (by simp)
+    obtain ⟨hv1, hv2⟩ := sparseTokOk_mem v hv
+    have hsp : isPySpace 32 = true := by decide
+    have start : sparseSplitGo [] st (d ++ 32 :: v) = sparseSplitGo d 0 (32 :: v) := by
+      rcases hst with h | h <;> subst h
+      · simpa using ssg_tok [] d (32 :: v) (isDigit_tok d hd2)
+      · exact ssg_tok_start 2 (by decide) d _ hd1 (isDigit_tok d hd2)
+    simp only [sparseWriteItems, start, sparseSplitGo, hsp, if_true]
+    have := ssg_tok_start 1 (by decide) v [] hv1 hv2
+    simp only [List.append_nil] at this
+    rw [this]
+    simp [sparseSplitGo, flatItems]
+  | cons y r ih =>
+    obtain ⟨hd1, hd2, hv⟩ := hok (d, v) (by simp)
+    obtain ⟨hv1, hv2⟩ := sparseTokOk_mem v hv
+    obtain ⟨y1, y2⟩ := y
+    have hsp : isPySpace 32 = true := by decide
+    have hcm : isPySpace COMMA = false := by decide
+    simp only [sparseWriteItems]
+    have start : ∀ X, sparseSplitGo [] st (d ++ 32 :: X) = sparseSplitGo d 0 (32 :: X) := by
+      intro X
+      rcases hst with h | h <;> subst h
+      · simpa using ssg_tok [] d (32 :: X) (isDigit_tok d hd2)
+      · exact ssg_tok_start 2 (by decide) d _ hd1 (isDigit_tok d hd2)
+    simp only [List.append_assoc, List.cons_append]
+    rw [start]
+    simp only [sparseSplitGo, hsp, if_true]
+    rw [ssg_tok_start 1 (by decide) v _ hv1 hv2]
+    simp only [List.cons_append, sparseSplitGo, hcm, Bool.false_eq_true, if_false, if_true]
+    rw [ssg_spaces, ih 2 (Or.inr rfl) y1 y2 (fun p hp => hok p (by simp at hp ⊢; right; exact hp))]
+    simp [flatItems]
+
+theorem evens_flat (d v : Text) (rest : List (Text × Text)) :
+    evens (d :: v :: flatItems rest) = d :: evens (flatItems rest) ∧ odds (d :: v :: flatItems rest) = v :: odds (flatItems rest) := by
+  constructor <;> rfl
+
+theorem evens_odds_flat (r : List (Text × Text)) : evens (flatItems r) = r.map (·.1) ∧ odds (flatItems r) = r.map (·.2) := by
+  induction r with
+  | nil => exact ⟨rfl, rfl⟩
+  | cons p r ih =>
+    have e : flatItems (p :: r) = p.1 :: p.2 :: flatItems r := by simp [flatItems]
+    rw [e]
+    exact ⟨by simp [evens, ih.1], by simp [odds, ih.2]⟩
+
+theorem parseInt_digits (d : Text) (hne : d ≠ []) (h : d.all isDigit = true) : parseInt d = some (digitsVal d) := by
+  have htok := isDigit_tok d h
+  have hs : strip d = d := strip_id d
+    (fun c hc => (htok c (List.mem_of_mem_head? hc)).1) (fun c hc => (htok c (List.mem_of_getLast? hc)).1)
+  unfold parseInt
+  rw [hs]
+  cases d with
+  | nil => exact absurd rfl hne
+  | cons c t =>
+    have hc : isDigit c = true := List.all_eq_true.mp h c (by simp)
+    have h45 : c ≠ 45 := by unfold isDigit at hc; simp at hc; omega
+    have h43 : c ≠ 43 := by unfold isDigit at hc; simp at hc; omega
+    have e1 : ¬ ((c :: t).head? = some 45) := by simpa using h45
+    have e2 : ¬ ((c :: t).head? = some 43) := by simpa using h43
+    simp only [e1, e2, or_self, if_false, decide_false, Bool.false_eq_true]
+    simp [h, digitsVal]
+
+theorem parseKeys_digits (ds : List Text) (h : ∀ d ∈ ds, d ≠ [] ∧ d.all isDigit = true) :
+    parseKeys ds = .ok (ds.map digitsVal) := by
+  induction ds with
+  | nil => rfl
+  | cons d ds ih =>
+    simp [parseKeys, parseInt_digits d (h d (by simp)).1 (h d (by simp)).2, ih (fun x hx => h x (by simp [hx]))]
+
+theorem dictOf_nodup (l : List (Int × Text)) (h : (l.map (·.1)).Nodup) : dictOf l = l := by
+  induction l with
+  | nil => rfl
+  | cons p l ih =>
+    obtain ⟨k, v⟩ := p
+    simp only [List.map_cons, List.nodup_cons] at h
+    simp only [dictOf, ih h.2]
+    have : l.find? (fun x => decide (x.1 = k)) = none := by
+      rw [List.find?_eq_none]
+      intro x hx hk
+      simp only [decide_eq_true_eq] at hk
+      exact h.1 (by rw [← hk]; exact List.mem_map_of_mem hx)
+    simp [this]
+
+theorem getLast?_append_some {α} (a b : List α) (c : α) (h : b.getLast? = some c) : (a ++ b).getLast? = some c := by
+  rw [List.getLast?_append, h]; rfl
+
+theorem sparseWriteItems_last (pad : Nat) (d v : Text) (r : List (Text × Text)) (hv : ∀ p ∈ (d, v) :: r, p.2 ≠ []) :
+    ∃ c, (sparseWriteItems pad ((d, v) :: r)).getLast? = some c ∧ ∃ p ∈ (d, v) :: r, p.2.getLast? = some c := by
+  induction r generalizing d v with
+  | nil =>
+    have hne := hv (d, v) (by simp)
+    cases hg : v.getLast? with
+    | none => simp at hg; exact absurd hg hne
+    | some c =>
+      refine ⟨c, ?_, (d, v), by simp, hg⟩
+      have e : sparseWriteItems pad [(d, v)] = (d ++ [32]) ++ v := by simp [sparseWriteItems]
+      rw [e]; exact getLast?_append_some _ _ _ hg
+  | cons y r ih =>
+    obtain ⟨y1, y2⟩ := y
+    obtain ⟨c, hc, p, hp, hpc⟩ := ih y1 y2 (fun p hp => hv p (by simp at hp ⊢; right; exact hp))
+    refine ⟨c, ?_, p, by simp at hp ⊢; right; exact hp, hpc⟩
+    have e : sparseWriteItems pad ((d, v) :: (y1, y2) :: r) =
+        (d ++ 32 :: v ++ COMMA :: List.replicate pad 32) ++ sparseWriteItems pad ((y1, y2) :: r) := by simp [sparseWriteItems]
+    rw [e]; exact getLast?_append_some _ _ _ hc
+
+
+
+
+
+theorem sparseRowOk_parts (n : Nat) (items : List (Text × Text)) (h : sparseRowOk n items = true) :
+    (∀ p ∈ items, p.1 ≠ [] ∧ p.1.all isDigit = true ∧ sparseTokOk p.2 = true ∧
+        (∀ c, p.2.getLast? = some c → c ≠ RBRACE ∧ c ≠ LBRACE) ∧ digitsVal p.1 < (n : Int)) ∧
+    (items.map (fun p => digitsVal p.1)).Nodup := by
+  unfold sparseRowOk at h
+  simp only [Bool.and_eq_true, decide_eq_true_eq] at h
+  refine ⟨fun p hp => ?_, h.2⟩
+  have := List.all_eq_true.mp h.1 p hp
+  simp only [Bool.and_eq_true, decide_eq_true_eq] at this
+  refine ⟨this.1.1.1.1, this.1.1.1.2, this.1.1.2, ?_, this.2⟩
+  intro c hc
+  have h4 := this.1.2
+  rw [hc] at h4
+  simpa using h4
+
+theorem stripBraces_written (inner : Text) (h1 : ∀ c, inner.head? = some c → (c == RBRACE || c == 32 || c == LBRACE) = false)
+    (h2 : ∀ c, inner.getLast? = some c → (c == RBRACE || c == 32 || c == LBRACE) = false) :
+    stripBraces (LBRACE :: (inner ++ [RBRACE])) = inner := by
+  unfold stripBraces
+  have hL : (LBRACE == RBRACE || LBRACE == 32 || LBRACE == LBRACE) = true := by decide
+  have hR : (RBRACE == RBRACE || RBRACE == 32 || RBRACE == LBRACE) = true := by decide
+  simp only [List.dropWhile, hL]
+  cases inner with
+  | nil => simp [List.dropWhile, hR]
+  | cons c t =>
+    have hc := h1 c rfl
+    simp only [List.cons_append, List.dropWhile, hc]
+    rw [← List.cons_append, List.reverse_append]
+    simp only [List.reverse_cons, List.reverse_nil, List.nil_append, List.singleton_append, List.dropWhile, hR]
+    rw [← List.reverse_cons, dropWhile_head_false, List.reverse_reverse]
+    intro a ha
+    rw [List.head?_reverse] at ha
+    exact h2 a ha
+
+theorem zip_map_fst_snd {α β γ} (f : α → γ) (l : List (α × β)) :
+    (l.map (fun p => f p.1)).zip (l.map (·.2)) = l.map (fun p => (f p.1, p.2)) := by
+  induction l with
+  | nil => rfl
+  | cons p l ih => simp [ih]
+
+theorem digitsVal_nonneg (d : Text) : 0 ≤ digitsVal d := by unfold digitsVal; exact Int.natCast_nonneg _
+
+theorem arffSparseLine_written (n pad : Nat) (items : List (Text × Text)) (h : sparseRowOk n items = true) :
+    arffSparseLine n (sparseWriteRow pad items) = .ok (items.map (fun p => (digitsVal p.1, p.2))) := by
+  obtain ⟨hall, hnd⟩ := sparseRowOk_parts n items h
+  unfold arffSparseLine sparseWriteRow
+  cases items with
+  | nil =>
+    have e : stripBraces (LBRACE :: (sparseWriteItems pad [] ++ [RBRACE])) = [] := by
+      show stripBraces [LBRACE, RBRACE] = []
+      decide
+    rw [e]
+    rfl
+  | cons p r =>
+    obtain ⟨d, v⟩ := p
+    have hdv := hall (d, v) (by simp)
+    -- head and last character of the text between the braces
+    have hhead : ∀ c, (sparseWriteItems pad ((d, v) :: r)).head? = some c → (c == RBRACE || c == 32 || c == LBRACE) = false := by
+      intro c hc
+      have hd : d.head? = some c := by
+        cases hdd : d with
+        | nil => exact absurd hdd hdv.1
+        | cons a t =>
+          rw [hdd] at hc
+          cases r with
+          | nil => simpa [sparseWriteItems] using hc
+          | cons y r' => simpa [sparseWriteItems] using hc
+      have := List.all_eq_true.mp hdv.2.1 c (List.mem_of_mem_head? hd)
+      unfold isDigit at this
+      simp only [Bool.and_eq_true, decide_eq_true_eq] at this
+      simp only [Bool.or_eq_false_iff, beq_eq_false_iff_ne, RBRACE, LBRACE]
+      refine ⟨⟨?_, ?_⟩, ?_⟩ <;> omega
+    have hlast : ∀ c, (sparseWriteItems pad ((d, v) :: r)).getLast? = some c → (c == RBRACE || c == 32 || c == LBRACE) = false := by
+      intro c hc
+      obtain ⟨c', hc', p, hp, hpc⟩ := sparseWriteItems_last pad d v r (fun p hp => (sparseTokOk_mem p.2 (hall p hp).2.2.1).1)
+      rw [hc] at hc'
+      cases hc'
+      have hp' := hall p hp
+      have hb := hp'.2.2.2.1 c hpc
+      have hws := ((sparseTokOk_mem p.2 hp'.2.2.1).2 c (List.mem_of_getLast? hpc)).1
+      have h32 : c ≠ 32 := by intro e; subst e; simp [isPySpace] at hws
+      simp [hb.1, hb.2, h32]
+    rw [stripBraces_written _ hhead hlast]
+    unfold sparseSplit
+    rw [sparseSplit_items pad 0 (Or.inl rfl) d v r (fun p hp => ⟨(hall p hp).1, (hall p hp).2.1, (hall p hp).2.2.1⟩)]
+    have hne : ¬ (d :: v :: flatItems r = [[]]) := by simp
+    simp only [hne, if_false]
+    have ev : evens (d :: v :: flatItems r) = ((d, v) :: r).map (·.1) := by
+      simp [evens, (evens_odds_flat r).1]
+    have od : odds (d :: v :: flatItems r) = ((d, v) :: r).map (·.2) := by
+      simp [odds, (evens_odds_flat r).2]
+    rw [ev, od, parseKeys_digits _ (by
+      intro x hx
+      simp only [List.mem_map] at hx
+      obtain ⟨p, hp, rfl⟩ := hx
+      exact ⟨(hall p hp).1, (hall p hp).2.1⟩)]
+    simp only [List.map_map]
+    have hz : (List.map (digitsVal ∘ fun x => x.1) ((d, v) :: r)).zip (List.map (fun x => x.2) ((d, v) :: r))
+        = ((d, v) :: r).map (fun p => (digitsVal p.1, p.2)) := zip_map_fst_snd digitsVal _
+    rw [hz, dictOf_nodup _ (by simpa [List.map_map, Function.comp_def] using hnd)]
+    have hrange : (List.map (fun p => (digitsVal p.1, p.2)) ((d, v) :: r)).any (fun p => decide (p.1 < 0) || decide ((n : Int) ≤ p.1)) = false := by
+      rw [List.any_eq_false]
+      intro x hx
+      simp only [List.mem_map] at hx
+      obtain ⟨p, hp, rfl⟩ := hx
+      have h1 := digitsVal_nonneg p.1
+      have h2 := (hall p hp).2.2.2.2
+      simp only [Bool.or_eq_true, decide_eq_true_eq, not_or]
+      omega
+    simp only [hrange, Bool.false_eq_true, if_false]
+
+
+
+theorem delivery_invariance' {σ} (D : Decomp σ) (hD : D.Lawful) (bs : List Nat) :
+    (∀ size, readFix D (chunksOf size bs) = readWhole D bs) ∧
+    (∀ cs : List (List Nat), cs.flatten = bs → readFix D cs = readWhole D bs) := by
+  refine ⟨fun size => ?_, fun cs h => ?_⟩
+  · rw [chunk_invariance' D hD, chunksOf_flatten]
+  · rw [chunk_invariance' D hD, h]
+
+
+/-! ## D.1 the attribute header -/
+
+
+theorem mem_takeWhile_true {α} (p : α → Bool) (l : List α) : ∀ c ∈ l.takeWhile p, p c = true := by
+  induction l with
+  | nil => simp
+  | cons a l ih =>
+    intro c hc
+    by_cases ha : p a = true
+    · simp only [List.takeWhile, ha, List.mem_cons] at hc
+      rcases hc with rfl | hc
+      · exact ha
+      · exact ih c hc
+    · simp [List.takeWhile, ha] at hc
+
+theorem dropWhile_head_not {α} (p : α → Bool) (l : List α) (a : α) (r : List α) (h : l.dropWhile p = a :: r) : p a = false := by
+  induction l with
+  | nil => simp at h
+  | cons b l ih =>
+    by_cases hb : p b = true
+    · simp only [List.dropWhile, hb] at h; exact ih h
+    · simp only [List.dropWhile, hb] at h
+      cases h; simpa using hb
+
+/-- `rstrip`: what is removed is white space, what remains does not end in white space -/
+theorem rstrip_spec (t : Text) : ∃ w, t = rstrip t ++ w ∧ (∀ c ∈ w, isPySpace c = true) ∧
+    (∀ c, (rstrip t).getLast? = some c → isPySpace c = false) := by
+  unfold rstrip
+  refine ⟨(t.reverse.takeWhile isPySpace).reverse, ?_, ?_, ?_⟩
+  · have := List.takeWhile_append_dropWhile (p := isPySpace) (l := t.reverse)
+    have h2 := congrArg List.reverse this
+    simp only [List.reverse_append, List.reverse_reverse] at h2
+    exact h2.symm
+  · intro c hc
+    simp only [List.mem_reverse] at hc
+    exact mem_takeWhile_true isPySpace _ c hc
+  · intro c hc
+    rw [List.getLast?_reverse] at hc
+    cases hd : t.reverse.dropWhile isPySpace with
+    | nil => rw [hd] at hc; simp at hc
+    | cons a r =>
+      rw [hd] at hc
+      simp at hc
+      rw [← hc]
+      exact dropWhile_head_not isPySpace t.reverse a r hd
+
+theorem rstrip_id (t : Text) (h : ∀ c, t.getLast? = some c → isPySpace c = false) : rstrip t = t := by
+  unfold rstrip
+  rw [dropWhile_head_false, List.reverse_reverse]
+  intro a ha
+  rw [List.head?_reverse] at ha
+  exact h a ha
+
+theorem rstrip_append_ws (t w : Text) (hw : ∀ c ∈ w, isPySpace c = true) : rstrip (t ++ w) = rstrip t := by
+  unfold rstrip
+  rw [List.reverse_append, dropWhile_all_append isPySpace w.reverse _ (fun x hx => hw x (by simpa using hx))]
+
+
+
+
+
+section esc
+variable (q : Nat) (also : Nat → Bool)
+
+theorem hdrEscape_filter (v : Text) (h : v.contains BS = false) : (hdrEscape q also v).filter (· != BS) = v := by
+  induction v with
+  | nil => rfl
+  | cons c t ih =>
+    have hc : c ≠ BS := by
+      intro e; subst e; simp at h
+    have ht : t.contains BS = false := by
+      cases hh : t.contains BS with
+      | false => rfl
+      | true => simp only [List.contains_iff_mem] at hh; have : (c :: t).contains BS = true := by simp [hh]
+                rw [this] at h; cases h
+    have hcb : (c != BS) = true := by simpa using hc
+    have hbb : (BS != BS) = false := by decide
+    simp only [hdrEscape]
+    split
+    · simp only [List.filter, hbb, hcb, ih ht]
+    · simp only [List.filter, hcb, ih ht]
+
+theorem hdrEscape_ne_nil (v : Text) (h : v ≠ []) : hdrEscape q also v ≠ [] := by
+  cases v with
+  | nil => exact absurd rfl h
+  | cons c t => simp only [hdrEscape]; split <;> simp
+
+theorem hdrEscape_last (v : Text) : (hdrEscape q also v).getLast? = v.getLast? := by
+  induction v with
+  | nil => rfl
+  | cons c t ih =>
+    cases t with
+    | nil => simp only [hdrEscape]; split <;> simp
+    | cons d t' =>
+      have hne := hdrEscape_ne_nil q also (d :: t') (by simp)
+      have e1 : ∀ (pre : Text), (pre ++ hdrEscape q also (d :: t')).getLast? = (hdrEscape q also (d :: t')).getLast? := by
+        intro pre
+        cases hg : (hdrEscape q also (d :: t')).getLast? with
+        | none => simp at hg; exact absurd hg hne
+        | some z => exact getLast?_append_some _ _ _ hg
+      have : hdrEscape q also (c :: d :: t') = (if c = q ∨ also c = true then [BS, c] else [c]) ++ hdrEscape q also (d :: t') := by
+        simp only [hdrEscape]; split <;> simp [hdrEscape]
+      rw [this, e1, ih, List.getLast?_cons_cons]
+
+theorem hdrEscape_head (v : Text) (c : Nat) (h : (hdrEscape q also v).head? = some c) : c = BS ∨ v.head? = some c := by
+  cases v with
+  | nil => simp [hdrEscape] at h
+  | cons a t =>
+    simp only [hdrEscape] at h
+    split at h
+    · left; simpa using h.symm
+    · right; simpa using h
+
+/-- every quote character inside the escaped text has a backslash in front of it -/
+theorem hdrEscape_q_pre (hq : q ≠ BS) (v a b : Text) (h : hdrEscape q also v = a ++ q :: b) : a.getLast? = some BS := by
+  induction v generalizing a with
+  | nil => simp [hdrEscape] at h
+  | cons c t ih =>
+    simp only [hdrEscape] at h
+    split at h
+    · match a, h with
+      | [], h => simp at h; exact absurd h.1.symm hq
+      | [x], h => simp at h; simp [h.1]
+      | x :: y :: a', h =>
+        simp only [List.cons_append, List.cons.injEq] at h
+        have := ih a' h.2.2
+        have hne : a' ≠ [] := by intro e; subst e; simp at this
+        cases a' with
+        | nil => exact absurd rfl hne
+        | cons z a'' => simpa [List.getLast?_cons_cons] using this
+    · rename_i hc
+      match a, h with
+      | [], h => simp at h; exact absurd (Or.inl h.1) hc
+      | x :: a', h =>
+        simp only [List.cons_append, List.cons.injEq] at h
+        have := ih a' h.2
+        cases a' with
+        | nil => simp at this
+        | cons z a'' => simpa [List.getLast?_cons_cons] using this
+
+end esc
+
+theorem append_singleton_split {α} (X Y c : List α) (z : α) (h : X ++ [z] = Y ++ c) (hc : c ≠ []) :
+    ∃ c', c = c' ++ [z] ∧ X = Y ++ c' := by
+  have h1 := congrArg List.reverse h
+  simp only [List.reverse_append, List.reverse_cons, List.reverse_nil, List.nil_append, List.singleton_append] at h1
+  cases hr : c.reverse with
+  | nil => simp at hr; exact absurd hr hc
+  | cons w cr =>
+    rw [hr] at h1
+    simp only [List.cons_append, List.cons.injEq] at h1
+    refine ⟨cr.reverse, ?_, ?_⟩
+    · have := congrArg List.reverse hr
+      simp only [List.reverse_reverse, List.reverse_cons] at this
+      rw [this, h1.1]
+    · have := congrArg List.reverse h1.2
+      simpa using this
+
+
+
+
+
+theorem getLast?_some_split {α} (l : List α) (a : α) (h : l.getLast? = some a) : ∃ r0, l = r0 ++ [a] := by
+  induction l with
+  | nil => simp at h
+  | cons b l ih =>
+    cases l with
+    | nil => simp at h; exact ⟨[], by simp [h]⟩
+    | cons c l' =>
+      rw [List.getLast?_cons_cons] at h
+      obtain ⟨r0, hr0⟩ := ih h
+      exact ⟨b :: r0, by rw [hr0]; rfl⟩
+
+
+/-- the written form of a quoted token -/
+def qTok (q : Nat) (also : Nat → Bool) (v : Text) : Text := q :: (hdrEscape q also v ++ [q])
+
+theorem isPySpace_q (q : Nat) (hq : q = SQ ∨ q = DQ) : isPySpace q = false ∧ q ≠ BS ∧ q ≠ COMMA := by
+  rcases hq with h | h <;> subst h <;> decide
+
+/-- the complete quoted token settles to the value -/
+theorem settle_qTok (q : Nat) (hq : q = SQ ∨ q = DQ) (also : Nat → Bool) (v : Text) (hv : v.contains BS = false) :
+    settle (qTok q also v) = .done v := by
+  obtain ⟨hq1, hq2, _⟩ := isPySpace_q q hq
+  have hr : rstrip (qTok q also v) = qTok q also v := by
+    apply rstrip_id
+    intro c hc
+    unfold qTok at hc
+    rw [getLast?_cons_concat] at hc
+    cases hc; exact hq1
+  unfold settle
+  rw [hr]
+  unfold qTok
+  simp only [List.head?_cons, getLast?_cons_concat, dropLast_cons_concat, ne_eq, not_true_eq_false, if_false, List.tail_cons,
+    List.dropLast_concat, List.length_cons, List.length_append, List.length_singleton, List.length_nil]
+  have hlen : ¬ ((hdrEscape q also v).length + (0 + 1) + 1 < 2) := by omega
+  have hbs : ¬ ((q :: hdrEscape q also v).getLast? = some BS) := by
+    cases hE : hdrEscape q also v with
+    | nil => simp; exact hq2
+    | cons a t =>
+      rw [List.getLast?_cons_cons, ← hE, hdrEscape_last]
+      intro hl
+      have : BS ∈ v := List.mem_of_getLast? hl
+      have : v.contains BS = true := by simpa using this
+      rw [hv] at this; cases this
+  simp only [hlen, hbs, if_false, hdrEscape_filter q also v hv]
+
+/-- H': every proper prefix of a quoted token with at least two characters, the second of which
+is not white space, asks for more -/
+theorem settle_prefix_more (q : Nat) (hq : q = SQ ∨ q = DQ) (also : Nat → Bool) (v : Text)
+    (x : Nat) (pre2 suf : Text) (hT : qTok q also v = q :: x :: pre2 ++ suf) (hsuf : suf ≠ []) (hx : isPySpace x = false) :
+    settle (q :: x :: pre2) = .more := by
+  obtain ⟨hq1, hq2, _⟩ := isPySpace_q q hq
+  obtain ⟨w, hw1, hw2, hw3⟩ := rstrip_spec (q :: x :: pre2)
+  -- the stripped prefix still has its first two characters
+  have hr2 : ∃ r2, rstrip (q :: x :: pre2) = q :: x :: r2 := by
+    cases hr : rstrip (q :: x :: pre2) with
+    | nil =>
+      rw [hr] at hw1; simp at hw1
+      have := hw2 q (by rw [← hw1]; simp)
+      rw [hq1] at this; cases this
+    | cons a r1 =>
+      rw [hr] at hw1
+      simp only [List.cons_append, List.cons.injEq] at hw1
+      cases r1 with
+      | nil =>
+        simp only [List.nil_append] at hw1
+        have := hw2 x (by rw [← hw1.2]; simp)
+        rw [hx] at this; cases this
+      | cons b r2 =>
+        simp only [List.cons_append, List.cons.injEq] at hw1
+        exact ⟨r2, by rw [← hw1.1, ← hw1.2.1]⟩
+  obtain ⟨r2, hr⟩ := hr2
+  unfold settle
+  rw [hr]
+  simp only [List.head?_cons]
+  cases hl : (q :: x :: r2).getLast? with
+  | none => simp at hl
+  | some l =>
+    simp only
+    by_cases hlq : l = q
+    · rw [hlq] at hl
+      simp only [hlq, ne_eq, not_true_eq_false, if_false, List.length_cons]
+      have hlen : ¬ (r2.length + 1 + 1 < 2) := by omega
+      simp only [hlen, if_false]
+      -- the stripped prefix is `q :: r1 ++ [q]`; that last quote lies inside the escaped text
+      obtain ⟨r0, hr0⟩ := getLast?_some_split _ _ hl
+      cases r0 with
+      | nil => simp at hr0
+      | cons a r1 =>
+        simp only [List.cons_append, List.cons.injEq] at hr0
+        have hx2 : x :: r2 = r1 ++ [q] := hr0.2
+        have hdl : (q :: x :: r2).dropLast = q :: r1 := by
+          rw [hx2]; exact dropLast_cons_concat q r1 q
+        rw [hdl]
+        have hT2 : hdrEscape q also v ++ [q] = r1 ++ (q :: (w ++ suf)) := by
+          have h1 : q :: x :: pre2 = q :: ((r1 ++ [q]) ++ w) := by
+            rw [hw1, hr, hx2]; rfl
+          unfold qTok at hT
+          rw [h1] at hT
+          simp only [List.cons_append, List.cons.injEq, true_and] at hT
+          rw [hT]; simp
+        obtain ⟨c', hc1, hc2⟩ := append_singleton_split _ _ _ _ hT2 (by simp)
+        have hc' : ∃ b, c' = q :: b := by
+          cases c' with
+          | nil =>
+            simp only [List.nil_append, List.cons.injEq] at hc1
+            have : w ++ suf = [] := hc1.2
+            simp at this
+            exact absurd this.2 hsuf
+          | cons z c'' =>
+            simp only [List.cons_append, List.cons.injEq] at hc1
+            exact ⟨c'', by rw [← hc1.1]⟩
+        obtain ⟨b, hb⟩ := hc'
+        rw [hb] at hc2
+        have hBS := hdrEscape_q_pre q also hq2 v r1 b hc2
+        have hne : r1 ≠ [] := by intro e; subst e; simp at hBS
+        cases r1 with
+        | nil => exact absurd rfl hne
+        | cons z r1' =>
+          rw [List.getLast?_cons_cons, hBS]
+          simp
+    · simp [hlq]
+
+
+
+
+
+theorem splitLoop_acc (P : Pat) (n : Option Nat) (c : Nat) (item p : Text) (ps : List Text) :
+    splitLoop P n c (some item) (p :: ps) =
+      match settle (item ++ p) with
+      | .more => splitLoop P n c (some (item ++ p)) ps
+      | .indexError => .error .indexError
+      | .done v => (match splitLoop P n c none ps with | .error e => .error e | .ok r => .ok (v :: r)) := by
+  simp only [splitLoop]
+  cases settle (item ++ p) <;> rfl
+
+/-- the gluing loop of `_split`: pieces are appended while the item asks for more -/
+theorem splitLoop_glue (P : Pat) (n : Option Nat) (c : Nat) (ps : List Text) (item v : Text) (R : List Text) (hne : ps ≠ [])
+    (hmore : ∀ k, 0 < k → k < ps.length → settle (item ++ (ps.take k).flatten) = .more)
+    (hdone : settle (item ++ ps.flatten) = .done v) :
+    splitLoop P n c (some item) (ps ++ R) =
+      match splitLoop P n c none R with | .error e => .error e | .ok r => .ok (v :: r) := by
+  induction ps generalizing item with
+  | nil => exact absurd rfl hne
+  | cons p ps ih =>
+    cases ps with
+    | nil =>
+      simp only [List.flatten_cons, List.flatten_nil, List.append_nil] at hdone
+      simp only [List.cons_append, List.nil_append]
+      rw [splitLoop_acc, hdone]
+    | cons p2 ps' =>
+      have h1 := hmore 1 (by omega) (by simp)
+      simp only [List.take_succ_cons, List.take_zero, List.flatten_cons, List.flatten_nil, List.append_nil] at h1
+      simp only [List.cons_append]
+      rw [splitLoop_acc, h1]
+      simp only
+      have := ih (item ++ p) (by simp) (by
+        intro k hk1 hk2
+        have := hmore (k + 1) (by omega) (by simp at hk2 ⊢; omega)
+        simpa [List.take_succ_cons, List.append_assoc] using this) (by
+        simpa [List.append_assoc] using hdone)
+      simpa using this
+
+/-! ### the comma splitter -/
+
+theorem splitCommaGo_free (cur a rest : Text) (h : ∀ c ∈ a, c ≠ COMMA) :
+    splitCommaGo cur (a ++ rest) = splitCommaGo (cur ++ a) rest := by
+  induction a generalizing cur with
+  | nil => simp
+  | cons c a ih =>
+    simp only [List.cons_append, splitCommaGo, h c (by simp), if_false]
+    rw [ih (cur ++ [c]) (fun d hd => h d (by simp [hd]))]; simp
+
+theorem splitCommaGo_cur (cur t : Text) :
+    splitCommaGo cur t = match splitCommaGo [] t with | hd :: tl => (cur ++ hd) :: tl | [] => [cur] := by
+  induction t generalizing cur with
+  | nil => simp [splitCommaGo]
+  | cons c t ih =>
+    by_cases hc : c = COMMA
+    · simp [splitCommaGo, hc]
+    · simp only [splitCommaGo, hc, if_false, List.nil_append]
+      rw [ih (cur ++ [c]), ih [c]]
+      cases splitCommaGo [] t <;> simp
+
+theorem splitCommaGo_comma (cur a b : Text) :
+    splitCommaGo cur (a ++ COMMA :: b) = splitCommaGo cur a ++ [COMMA] :: splitCommaGo [] b := by
+  induction a generalizing cur with
+  | nil => simp [splitCommaGo]
+  | cons c a ih =>
+    by_cases hc : c = COMMA
+    · simp [splitCommaGo, hc, ih]
+    · simp [splitCommaGo, hc, ih]
+
+theorem splitCommaGo_flatten (cur t : Text) : (splitCommaGo cur t).flatten = cur ++ t := by
+  induction t generalizing cur with
+  | nil => simp [splitCommaGo]
+  | cons c t ih =>
+    by_cases hc : c = COMMA
+    · simp [splitCommaGo, hc, ih]
+    · simp [splitCommaGo, hc, ih]
+
+theorem splitCommaGo_ne_nil (cur t : Text) : splitCommaGo cur t ≠ [] := by
+  cases t with
+  | nil => simp [splitCommaGo]
+  | cons c t => simp only [splitCommaGo]; split <;> simp [splitCommaGo_ne_nil]
+
+/-- a text that ends in a non-comma character: the last piece ends in it -/
+theorem splitCommaGo_snoc (cur t : Text) (z : Nat) (hz : z ≠ COMMA) :
+    ∃ ps l, splitCommaGo cur (t ++ [z]) = ps ++ [l ++ [z]] := by
+  induction t generalizing cur with
+  | nil => exact ⟨[], cur, by simp [splitCommaGo, hz]⟩
+  | cons c t ih =>
+    by_cases hc : c = COMMA
+    · obtain ⟨ps, l, h⟩ := ih []
+      exact ⟨cur :: [COMMA] :: ps, l, by simp [splitCommaGo, hc, h]⟩
+    · obtain ⟨ps, l, h⟩ := ih (cur ++ [c])
+      exact ⟨ps, l, by simp [splitCommaGo, hc, h]⟩
+
+theorem drop_flatten_ne_nil (ps : List Text) (x : Text) (hx : x ≠ []) (k : Nat) (hk : k < (ps ++ [x]).length) :
+    ((ps ++ [x]).drop k).flatten ≠ [] := by
+  have : k ≤ ps.length := by simp at hk; omega
+  rw [List.drop_append_of_le_length this]
+  simp [hx]
+
+
+
+
+
+/-- a quoted token cut into pieces `hd :: tl` (by either splitter): entering the quoted branch of
+`_split` with `item = hd` yields the value and continues after the pieces -/
+theorem splitLoop_token (P : Pat) (n : Option Nat) (c : Nat) (q : Nat) (hq : q = SQ ∨ q = DQ) (also : Nat → Bool) (v : Text)
+    (hv : v.contains BS = false) (hd : Text) (tl R : List Text)
+    (hflat : hd ++ tl.flatten = qTok q also v)
+    (hhd : tl ≠ [] → ∃ e0 hd2, hd = q :: e0 :: hd2 ∧ isPySpace e0 = false)
+    (hdrop : ∀ k, k < tl.length → (tl.drop k).flatten ≠ []) :
+    (match settle hd with
+      | .more => splitLoop P n c (some hd) (tl ++ R)
+      | .indexError => .error .indexError
+      | .done v' => (match splitLoop P n c none (tl ++ R) with | .error e => .error e | .ok r => .ok (v' :: r))) =
+    (match splitLoop P n c none R with | .error e => .error e | .ok r => .ok (v :: r)) := by
+  by_cases htl : tl = []
+  · subst htl
+    simp only [List.flatten_nil, List.append_nil] at hflat
+    rw [hflat, settle_qTok q hq also v hv]
+    rfl
+  · obtain ⟨e0, hd2, hhd', he0⟩ := hhd htl
+    have hsuf : tl.flatten ≠ [] := by
+      have := hdrop 0 (List.length_pos_iff.mpr htl)
+      simpa using this
+    have hm : settle hd = .more := by
+      rw [hhd']
+      exact settle_prefix_more q hq also v e0 hd2 tl.flatten (by rw [← hflat, hhd']) hsuf he0
+    rw [hm]
+    simp only
+    apply splitLoop_glue P n c tl hd v R htl
+    · intro k hk1 hk2
+      rw [hhd']
+      have hT : qTok q also v = q :: e0 :: (hd2 ++ (tl.take k).flatten) ++ (tl.drop k).flatten := by
+        rw [← hflat, hhd']
+        have : tl.flatten = (tl.take k).flatten ++ (tl.drop k).flatten := by
+          rw [← List.flatten_append, List.take_append_drop]
+        rw [this]; simp
+      have := settle_prefix_more q hq also v e0 (hd2 ++ (tl.take k).flatten) _ hT (hdrop k hk2) he0
+      simpa using this
+    · rw [hflat]; exact settle_qTok q hq also v hv
+
+theorem lstrip_lead (lead t : Text) (hl : ∀ c ∈ lead, isPySpace c = true) (ht : ∀ c, t.head? = some c → isPySpace c = false) :
+    lstrip (lead ++ t) = t := by
+  unfold lstrip
+  rw [dropWhile_all_append isPySpace lead t hl, dropWhile_head_false isPySpace t ht]
+
+theorem splitLoop_none (P : Pat) (n : Option Nat) (count : Nat) (p : Text) (ps : List Text) :
+    splitLoop P n count none (p :: ps) =
+      (if lstrip p = [] ∨ P.matchStart (lstrip p) = true then splitLoop P n count none ps
+       else if n = some (count + 1) then .ok [strip (lstrip p ++ ps.flatten)]
+       else if (match lstrip p with | c :: _ => isQuoteCh c | [] => false) then
+         match settle (lstrip p) with
+         | .more => splitLoop P n (count + 1) (some (lstrip p)) ps
+         | .indexError => .error .indexError
+         | .done v => (match splitLoop P n (count + 1) none ps with | .error e => .error e | .ok r => .ok (v :: r))
+       else
+         match splitLoop P n (count + 1) none ps with
+         | .error e => .error e
+         | .ok r => .ok (strip (lstrip p) :: r)) := by
+  simp only [splitLoop]
+  cases hl : lstrip p with
+  | nil => simp
+  | cons a t =>
+    simp only
+    by_cases h1 : (a :: t = [] ∨ P.matchStart (a :: t) = true)
+    · simp only [h1, if_true]
+    · simp only [h1, if_false]
+      by_cases h2 : n = some (count + 1)
+      · simp only [h2, if_true]
+      · simp only [h2, if_false]
+        by_cases h3 : isQuoteCh a = true
+        · simp only [h3, if_true]
+          cases settle (a :: t) <;> rfl
+        · simp only [h3, Bool.false_eq_true, if_false]
+          cases splitLoop P n (count + 1) none ps <;> rfl
+
+
+
+
+
+theorem quotedOk_parts (isLevel : Bool) (v : Text) (h : quotedOk isLevel v = true) :
+    v.contains BS = false ∧ ∀ c, v.head? = some c → isPySpace c = false ∧ (isLevel = true → c ≠ COMMA) := by
+  unfold quotedOk at h
+  simp only [Bool.and_eq_true, Bool.not_eq_true'] at h
+  refine ⟨h.1, ?_⟩
+  intro c hc
+  cases v with
+  | nil => simp at hc
+  | cons a t =>
+    simp at hc; subst hc
+    have := h.2
+    simp only [Bool.and_eq_true, Bool.not_eq_true', Bool.and_eq_false_iff, beq_eq_false_iff_ne] at this
+    refine ⟨this.1, fun hl => ?_⟩
+    rcases this.2 with h' | h'
+    · rw [hl] at h'; cases h'
+    · exact h'
+
+theorem ws_ne_comma (c : Nat) (h : isPySpace c = true) : c ≠ COMMA := by
+  intro e; subst e; revert h; decide
+
+/-- the pieces of a quoted level, cut at its commas -/
+theorem comma_pieces (q : Nat) (hq : q = SQ ∨ q = DQ) (also : Nat → Bool) (v : Text) (hv : quotedOk true v = true) :
+    ∃ h0 tl, splitCommaGo [] (qTok q also v) = (q :: h0) :: tl ∧ (q :: h0) ++ tl.flatten = qTok q also v ∧
+      (tl ≠ [] → ∃ e0 hd2, q :: h0 = q :: e0 :: hd2 ∧ isPySpace e0 = false) ∧
+      (∀ k, k < tl.length → (tl.drop k).flatten ≠ []) := by
+  obtain ⟨hq1, hq2, hq3⟩ := isPySpace_q q hq
+  obtain ⟨_, hhead⟩ := quotedOk_parts true v hv
+  have hstart : splitCommaGo [] (qTok q also v) = splitCommaGo [q] (hdrEscape q also v ++ [q]) := by
+    simp [qTok, splitCommaGo, hq3]
+  have hcur := splitCommaGo_cur [q] (hdrEscape q also v ++ [q])
+  cases hp : splitCommaGo [] (hdrEscape q also v ++ [q]) with
+  | nil => exact absurd hp (splitCommaGo_ne_nil _ _)
+  | cons h0 tl =>
+    rw [hp] at hcur
+    simp only at hcur
+    have hpieces : splitCommaGo [] (qTok q also v) = (q :: h0) :: tl := by rw [hstart, hcur]; rfl
+    have hflat : (q :: h0) ++ tl.flatten = qTok q also v := by
+      have := splitCommaGo_flatten [] (qTok q also v)
+      rw [hpieces] at this
+      simpa using this
+    refine ⟨h0, tl, hpieces, hflat, ?_, ?_⟩
+    · intro htl
+      cases hE : hdrEscape q also v with
+      | nil =>
+        exfalso
+        rw [hE] at hp
+        simp [splitCommaGo, hq3] at hp
+        exact htl hp.2
+      | cons e0 E' =>
+        have he0 : isPySpace e0 = false ∧ e0 ≠ COMMA := by
+          rcases hdrEscape_head q also v e0 (by rw [hE]; rfl) with h | h
+          · subst h; exact ⟨by decide, by decide⟩
+          · exact ⟨(hhead e0 h).1, (hhead e0 h).2 rfl⟩
+        rw [hE] at hp
+        have h2 : splitCommaGo [] (e0 :: E' ++ [q]) = splitCommaGo [e0] (E' ++ [q]) := by
+          simp [splitCommaGo, he0.2]
+        rw [h2, splitCommaGo_cur [e0]] at hp
+        cases hp2 : splitCommaGo [] (E' ++ [q]) with
+        | nil => exact absurd hp2 (splitCommaGo_ne_nil _ _)
+        | cons h1 t1 =>
+          rw [hp2] at hp
+          simp only [List.cons.injEq] at hp
+          exact ⟨e0, h1, by rw [← hp.1]; rfl, he0.1⟩
+    · intro k hk
+      obtain ⟨ps, l, hsn⟩ := splitCommaGo_snoc [] (q :: hdrEscape q also v) q hq3
+      have hT : qTok q also v = (q :: hdrEscape q also v) ++ [q] := rfl
+      rw [← hT, hpieces] at hsn
+      have := drop_flatten_ne_nil ps (l ++ [q]) (by simp) (k + 1) (by rw [← hsn]; simp; omega)
+      rw [← hsn] at this
+      simpa using this
+
+/-- one quoted level (after the blanks that follow a comma) -/
+theorem splitLoop_comma_quoted (q : Nat) (hq : q = SQ ∨ q = DQ) (also : Nat → Bool) (v : Text) (hv : quotedOk true v = true)
+    (lead : Text) (hl : ∀ c ∈ lead, isPySpace c = true) (count : Nat) (R : List Text) :
+    splitLoop .comma none count none (splitCommaGo [] (lead ++ qTok q also v) ++ R) =
+      match splitLoop .comma none (count + 1) none R with | .error e => .error e | .ok r => .ok (v :: r) := by
+  obtain ⟨hq1, hq2, hq3⟩ := isPySpace_q q hq
+  obtain ⟨h0, tl, hpieces, hflat, hhd, hdrop⟩ := comma_pieces q hq also v hv
+  have hsplit : splitCommaGo [] (lead ++ qTok q also v) = (lead ++ q :: h0) :: tl := by
+    rw [splitCommaGo_free [] lead _ (fun c hc => ws_ne_comma c (hl c hc)), splitCommaGo_cur, hpieces]
+    simp
+  rw [hsplit]
+  simp only [List.cons_append]
+  rw [splitLoop_none]
+  have hls : lstrip (lead ++ q :: h0) = q :: h0 := lstrip_lead lead _ hl (by intro c hc; simp at hc; subst hc; exact hq1)
+  have hqc : isQuoteCh q = true := by rcases hq with h | h <;> subst h <;> decide
+  have hms : Pat.matchStart .comma (q :: h0) = false := by simp [Pat.matchStart, hq3]
+  simp only [hls, hms, hqc, if_true, reduceCtorEq, or_self, if_false, Bool.false_eq_true]
+  exact splitLoop_token .comma none (count + 1) q hq also v (quotedOk_parts true v hv).1 (q :: h0) tl R hflat hhd hdrop
+
+theorem bareTokOk_level (v : Text) (h : bareTokOk true v = true) :
+    v ≠ [] ∧ (∀ c, v.head? = some c → isQuoteCh c = false ∧ isPySpace c = false) ∧
+    (∀ c, v.getLast? = some c → isPySpace c = false) ∧ (∀ c ∈ v, c ≠ COMMA) := by
+  unfold bareTokOk at h
+  simp only [Bool.and_eq_true, decide_eq_true_eq, if_true, Bool.not_eq_true'] at h
+  obtain ⟨⟨⟨h1, h2⟩, h3⟩, h4⟩ := h
+  refine ⟨h1, ?_, ?_, ?_⟩
+  · intro c hc
+    cases v with
+    | nil => simp at hc
+    | cons a t => simp at hc; subst hc; simpa using h2
+  · intro c hc; rw [hc] at h3; simpa using h3
+  · intro c hc e; subst e
+    have : v.contains COMMA = true := by simpa using hc
+    rw [h4] at this; cases this
+
+theorem splitLoop_comma_bare (v : Text) (hv : bareTokOk true v = true)
+    (lead : Text) (hl : ∀ c ∈ lead, isPySpace c = true) (count : Nat) (R : List Text) :
+    splitLoop .comma none count none (splitCommaGo [] (lead ++ v) ++ R) =
+      match splitLoop .comma none (count + 1) none R with | .error e => .error e | .ok r => .ok (v :: r) := by
+  obtain ⟨h1, h2, h3, h4⟩ := bareTokOk_level v hv
+  have hsplit : splitCommaGo [] (lead ++ v) = [lead ++ v] := by
+    have := splitCommaGo_free [] (lead ++ v) [] (by
+      intro c hc; simp only [List.mem_append] at hc
+      rcases hc with hc | hc
+      · exact ws_ne_comma c (hl c hc)
+      · exact h4 c hc)
+    simpa [splitCommaGo] using this
+  rw [hsplit]
+  simp only [List.cons_append, List.nil_append]
+  rw [splitLoop_none]
+  have hls : lstrip (lead ++ v) = v := lstrip_lead lead v hl (fun c hc => (h2 c hc).2)
+  cases hv' : v with
+  | nil => exact absurd hv' h1
+  | cons a t =>
+    rw [hv'] at hls h2 h3 h4
+    have ha := h2 a rfl
+    have hms : Pat.matchStart .comma (a :: t) = false := by simp [Pat.matchStart, h4 a (by simp)]
+    have hst : strip (a :: t) = a :: t := strip_id _ (fun c hc => (h2 c hc).2) h3
+    simp only [hls, hms, ha.1, hst, reduceCtorEq, or_self, if_false, Bool.false_eq_true]
+    try (cases splitLoop Pat.comma none (count + 1) none R <;> rfl)
+
+
+
+
+
+theorem hdr_level_tok (q : Nat) (hq : q = SQ ∨ q = DQ) (also : Nat → Bool) (x : Bool × Text) (hx : hdrTokOk true x = true)
+    (lead : Text) (hl : ∀ c ∈ lead, isPySpace c = true) (count : Nat) (R : List Text) :
+    splitLoop .comma none count none (splitCommaGo [] (lead ++ hdrWriteTok q also x) ++ R) =
+      match splitLoop .comma none (count + 1) none R with | .error e => .error e | .ok r => .ok (x.2 :: r) := by
+  unfold hdrTokOk at hx
+  unfold hdrWriteTok
+  by_cases h1 : x.1 = true
+  · simp only [h1, if_true] at hx ⊢
+    exact splitLoop_comma_quoted q hq also x.2 hx lead hl count R
+  · simp only [h1, Bool.false_eq_true, if_false] at hx ⊢
+    exact splitLoop_comma_bare x.2 hx lead hl count R
+
+theorem splitLoop_levels (q : Nat) (hq : q = SQ ∨ q = DQ) (also : Nat → Bool) (pad : Nat) (levels : List (Bool × Text))
+    (hne : levels ≠ []) (hok : ∀ x ∈ levels, hdrTokOk true x = true)
+    (lead : Text) (hl : ∀ c ∈ lead, isPySpace c = true) (count : Nat) :
+    splitLoop .comma none count none (splitCommaGo [] (lead ++ hdrWriteLevels q also pad levels)) = .ok (levels.map (·.2)) := by
+  induction levels generalizing lead count with
+  | nil => exact absurd rfl hne
+  | cons x xs ih =>
+    cases xs with
+    | nil =>
+      have := hdr_level_tok q hq also x (hok x (by simp)) lead hl count []
+      simp only [List.append_nil] at this
+      simp only [hdrWriteLevels, this, splitLoop]
+      simp
+    | cons y ys =>
+      simp only [hdrWriteLevels]
+      rw [← List.append_assoc, splitCommaGo_comma]
+      rw [hdr_level_tok q hq also x (hok x (by simp)) lead hl count]
+      rw [splitLoop_none]
+      have h1 : lstrip [COMMA] = [COMMA] := by decide
+      have h2 : Pat.matchStart .comma [COMMA] = true := by decide
+      simp only [h1, h2, or_true, if_true]
+      rw [ih (by simp) (fun z hz => hok z (by simp at hz ⊢; right; exact hz)) (List.replicate pad 32)
+        (by intro c hc; simp only [List.mem_replicate] at hc; rw [hc.2]; decide)]
+      simp
+
+theorem arffSplit_levels' (q : Nat) (hq : q = SQ ∨ q = DQ) (also : Nat → Bool) (pad : Nat) (levels : List (Bool × Text))
+    (hne : levels ≠ []) (hok : ∀ x ∈ levels, hdrTokOk true x = true) :
+    arffSplit .comma none (hdrWriteLevels q also pad levels) = .ok (levels.map (·.2)) := by
+  have := splitLoop_levels q hq also pad levels hne hok [] (by simp) 0
+  simpa [arffSplit, Pat.pieces, splitComma] using this
+
+theorem dedup_nodup (vs : List Text) (h : vs.Nodup) : dedup vs = vs := by
+  induction vs with
+  | nil => rfl
+  | cons a vs ih =>
+    simp only [List.nodup_cons] at h
+    have : vs.contains a = false := by
+      cases hc : vs.contains a with
+      | false => rfl
+      | true => simp only [List.contains_iff_mem] at hc; exact absurd hc h.1
+    simp [dedup, h.1, ih h.2]
+
+theorem catLevels_nodup (vs : List Text) (hne : vs ≠ []) (h : vs.Nodup) : catLevels vs = .ok vs := by
+  simp [catLevels, hne, dedup_nodup vs h]
+
+theorem encoder_brace_kw (t : Text) :
+    kwNumeric.contains (lowerAscii (LBRACE :: t)) = false ∧ kwString.any (fun k => startsWith k (lowerAscii (LBRACE :: t))) = false := by
+  constructor
+  · simp [kwNumeric, lowerAscii, LBRACE]
+  · simp [kwString, startsWith, lowerAscii, LBRACE]
+
+/-- a nominal type `{l1, l2, …}` -/
+theorem arffEncoder_nominal' (isDense : Bool) (q : Nat) (hq : q = SQ ∨ q = DQ) (also : Nat → Bool) (pad : Nat)
+    (levels : List (Bool × Text)) (hne : levels ≠ []) (hok : ∀ x ∈ levels, hdrTokOk true x = true)
+    (hnd : (if isDense then levels.map (·.2) else ZERO :: levels.map (·.2)).Nodup) :
+    arffEncoder isDense (LBRACE :: (hdrWriteLevels q also pad levels ++ [RBRACE])) =
+      .ok (.nominal (if isDense then levels.map (·.2) else ZERO :: levels.map (·.2))) := by
+  obtain ⟨k1, k2⟩ := encoder_brace_kw (hdrWriteLevels q also pad levels ++ [RBRACE])
+  unfold arffEncoder
+  simp only [k1, k2, Bool.false_eq_true, if_false, List.head?_cons, if_true, List.tail_cons, List.dropLast_concat]
+  rw [arffSplit_levels' q hq also pad levels hne hok]
+  simp only
+  rw [catLevels_nodup _ (by cases isDense <;> simp [hne]) hnd]
+
+
+
+
+
+/-! ### the white-space splitter -/
+
+theorem splitWsGo_free (cur a rest : Text) (h : ∀ c ∈ a, isPySpace c = false) :
+    splitWsGo cur false (a ++ rest) = splitWsGo (cur ++ a) false rest := by
+  induction a generalizing cur with
+  | nil => simp
+  | cons c a ih =>
+    simp only [List.cons_append, splitWsGo, h c (by simp), Bool.false_eq_true, if_false]
+    rw [ih (cur ++ [c]) (fun d hd => h d (by simp [hd]))]; simp
+
+theorem splitWsGo_wsrun (cur w rest : Text) (h : ∀ c ∈ w, isPySpace c = true) :
+    splitWsGo cur true (w ++ rest) = splitWsGo (cur ++ w) true rest := by
+  induction w generalizing cur with
+  | nil => simp
+  | cons c w ih =>
+    simp only [List.cons_append, splitWsGo, h c (by simp), if_true]
+    rw [ih (cur ++ [c]) (fun d hd => h d (by simp [hd]))]; simp
+
+theorem splitWsGo_ne_nil (cur : Text) (iw : Bool) (t : Text) : splitWsGo cur iw t ≠ [] := by
+  cases t with
+  | nil => simp [splitWsGo]
+  | cons c t => simp only [splitWsGo]; split <;> split <;> simp [splitWsGo_ne_nil]
+
+theorem splitWsGo_cur (cur : Text) (iw : Bool) (t : Text) :
+    splitWsGo cur iw t = match splitWsGo [] iw t with | hd :: tl => (cur ++ hd) :: tl | [] => [cur] := by
+  induction t generalizing cur iw with
+  | nil => simp [splitWsGo]
+  | cons c t ih =>
+    simp only [splitWsGo]
+    split <;> split
+    · rw [ih (cur ++ [c]) true, ih ([] ++ [c]) true]
+      cases splitWsGo [] true t <;> simp
+    · simp
+    · simp
+    · rw [ih (cur ++ [c]) false, ih ([] ++ [c]) false]
+      cases splitWsGo [] false t <;> simp
+
+theorem splitWsGo_flatten (cur : Text) (iw : Bool) (t : Text) : (splitWsGo cur iw t).flatten = cur ++ t := by
+  induction t generalizing cur iw with
+  | nil => simp [splitWsGo]
+  | cons c t ih =>
+    simp only [splitWsGo]
+    split <;> split <;> simp [ih]
+
+/-- a text that ends in a non-white-space character, followed by white space -/
+theorem splitWsGo_then_ws (cur : Text) (iw : Bool) (a : Text) (z w0 : Nat) (rest : Text)
+    (hz : isPySpace z = false) (hw : isPySpace w0 = true) :
+    splitWsGo cur iw (a ++ z :: w0 :: rest) = splitWsGo cur iw (a ++ [z]) ++ splitWsGo [w0] true rest := by
+  induction a generalizing cur iw with
+  | nil =>
+    cases iw <;> simp [splitWsGo, hz, hw]
+  | cons c a ih =>
+    simp only [List.cons_append, splitWsGo]
+    split <;> split <;> simp [ih]
+
+theorem splitWsGo_snoc (cur : Text) (iw : Bool) (t : Text) (z : Nat) (hz : isPySpace z = false) :
+    ∃ ps l, splitWsGo cur iw (t ++ [z]) = ps ++ [l ++ [z]] := by
+  induction t generalizing cur iw with
+  | nil =>
+    cases iw
+    · exact ⟨[], cur, by simp [splitWsGo, hz]⟩
+    · exact ⟨[cur], [], by simp [splitWsGo, hz]⟩
+  | cons c t ih =>
+    simp only [List.cons_append, splitWsGo]
+    split <;> split
+    · obtain ⟨ps, l, h⟩ := ih (cur ++ [c]) true; exact ⟨ps, l, h⟩
+    · obtain ⟨ps, l, h⟩ := ih [c] true; exact ⟨cur :: ps, l, by simp [h]⟩
+    · obtain ⟨ps, l, h⟩ := ih [c] false; exact ⟨cur :: ps, l, by simp [h]⟩
+    · obtain ⟨ps, l, h⟩ := ih (cur ++ [c]) false; exact ⟨ps, l, h⟩
+
+
+
+
+
+theorem ws_pieces (q : Nat) (hq : q = SQ ∨ q = DQ) (also : Nat → Bool) (v : Text) (hv : quotedOk false v = true) :
+    ∃ h0 tl, splitWsGo [] false (qTok q also v) = (q :: h0) :: tl ∧ (q :: h0) ++ tl.flatten = qTok q also v ∧
+      (tl ≠ [] → ∃ e0 hd2, q :: h0 = q :: e0 :: hd2 ∧ isPySpace e0 = false) ∧
+      (∀ k, k < tl.length → (tl.drop k).flatten ≠ []) := by
+  obtain ⟨hq1, hq2, hq3⟩ := isPySpace_q q hq
+  obtain ⟨_, hhead⟩ := quotedOk_parts false v hv
+  have hstart : splitWsGo [] false (qTok q also v) = splitWsGo [q] false (hdrEscape q also v ++ [q]) := by
+    simp [qTok, splitWsGo, hq1]
+  have hcur := splitWsGo_cur [q] false (hdrEscape q also v ++ [q])
+  cases hp : splitWsGo [] false (hdrEscape q also v ++ [q]) with
+  | nil => exact absurd hp (splitWsGo_ne_nil _ _ _)
+  | cons h0 tl =>
+    rw [hp] at hcur
+    simp only at hcur
+    have hpieces : splitWsGo [] false (qTok q also v) = (q :: h0) :: tl := by rw [hstart, hcur]; rfl
+    have hflat : (q :: h0) ++ tl.flatten = qTok q also v := by
+      have := splitWsGo_flatten [] false (qTok q also v)
+      rw [hpieces] at this
+      simpa using this
+    refine ⟨h0, tl, hpieces, hflat, ?_, ?_⟩
+    · intro htl
+      cases hE : hdrEscape q also v with
+      | nil =>
+        exfalso
+        rw [hE] at hp
+        simp [splitWsGo, hq1] at hp
+        exact htl hp.2
+      | cons e0 E' =>
+        have he0 : isPySpace e0 = false := by
+          rcases hdrEscape_head q also v e0 (by rw [hE]; rfl) with h | h
+          · subst h; decide
+          · exact (hhead e0 h).1
+        rw [hE] at hp
+        have h2 : splitWsGo [] false (e0 :: E' ++ [q]) = splitWsGo [e0] false (E' ++ [q]) := by
+          simp [splitWsGo, he0]
+        rw [h2, splitWsGo_cur [e0]] at hp
+        cases hp2 : splitWsGo [] false (E' ++ [q]) with
+        | nil => exact absurd hp2 (splitWsGo_ne_nil _ _ _)
+        | cons h1 t1 =>
+          rw [hp2] at hp
+          simp only [List.cons.injEq] at hp
+          exact ⟨e0, h1, by rw [← hp.1]; rfl, he0⟩
+    · intro k hk
+      obtain ⟨ps, l, hsn⟩ := splitWsGo_snoc [] false (q :: hdrEscape q also v) q hq1
+      have hT : qTok q also v = (q :: hdrEscape q also v) ++ [q] := rfl
+      rw [← hT, hpieces] at hsn
+      have := drop_flatten_ne_nil ps (l ++ [q]) (by simp) (k + 1) (by rw [← hsn]; simp; omega)
+      rw [← hsn] at this
+      simpa using this
+
+theorem bareTokOk_name (v : Text) (h : bareTokOk false v = true) :
+    v ≠ [] ∧ (∀ c, v.head? = some c → isQuoteCh c = false) ∧ (∀ c ∈ v, isPySpace c = false) := by
+  unfold bareTokOk at h
+  simp only [Bool.and_eq_true, decide_eq_true_eq, Bool.false_eq_true, if_false, Bool.not_eq_true'] at h
+  obtain ⟨⟨⟨h1, h2⟩, _⟩, h4⟩ := h
+  refine ⟨h1, ?_, ?_⟩
+  · intro c hc
+    cases v with
+    | nil => simp at hc
+    | cons a t => simp at hc; subst hc; simp at h2; exact h2.1
+  · intro c hc
+    have := List.all_eq_true.mp h4 c hc
+    simpa using this
+
+/-- the tail of an attribute line after the name: white space, then the type text -/
+theorem splitLoop_after_name (w0 : Nat) (W' : Text) (t0 : Nat) (typ' : Text) (hw0 : isPySpace w0 = true)
+    (hW : ∀ c ∈ W', isPySpace c = true) (ht0 : isPySpace t0 = false) (hst : strip (t0 :: typ') = t0 :: typ') :
+    splitLoop .ws (some 2) 1 none (splitWsGo [w0] true (W' ++ t0 :: typ')) = .ok [t0 :: typ'] := by
+  rw [splitWsGo_wsrun [w0] W' _ hW]
+  have e1 : splitWsGo ([w0] ++ W') true (t0 :: typ') = ([w0] ++ W') :: splitWsGo [t0] false typ' := by
+    simp [splitWsGo, ht0]
+  rw [e1, splitLoop_none]
+  have hl : lstrip ([w0] ++ W') = [] := by
+    unfold lstrip
+    exact dropWhile_all isPySpace _ (by
+      intro c hc; simp only [List.mem_append, List.mem_singleton] at hc
+      rcases hc with rfl | hc
+      · exact hw0
+      · exact hW c hc)
+  simp only [hl, true_or, if_true]
+  rw [splitWsGo_cur [t0] false typ']
+  cases hp : splitWsGo [] false typ' with
+  | nil => exact absurd hp (splitWsGo_ne_nil _ _ _)
+  | cons h1 t1 =>
+    simp only
+    rw [splitLoop_none]
+    have hl2 : lstrip (t0 :: h1) = t0 :: h1 := by
+      unfold lstrip; simp [List.dropWhile, ht0]
+    have hms : Pat.matchStart .ws (t0 :: h1) = false := by simp [Pat.matchStart, ht0]
+    have hfl : t0 :: h1 ++ t1.flatten = t0 :: typ' := by
+      have := splitWsGo_flatten [] false typ'
+      rw [hp] at this
+      simp only [List.flatten_cons, List.nil_append] at this
+      simp [this]
+    simp only [List.singleton_append, hl2, hms, reduceCtorEq, or_self, if_false, Bool.false_eq_true, if_true]
+    rw [hfl, hst]
+
+/-- `_split(line[11:], r_space, n=2)` on `name  type` gives the name and the type text -/
+theorem arffSplit_attr' (q : Nat) (hq : q = SQ ∨ q = DQ) (also : Nat → Bool) (name : Bool × Text) (hn : hdrTokOk false name = true)
+    (w0 : Nat) (W' : Text) (t0 : Nat) (typ' : Text) (hw0 : isPySpace w0 = true)
+    (hW : ∀ c ∈ W', isPySpace c = true) (ht0 : isPySpace t0 = false) (hst : strip (t0 :: typ') = t0 :: typ') :
+    arffSplit .ws (some 2) (hdrWriteTok q also name ++ (w0 :: W') ++ t0 :: typ') = .ok [name.2, t0 :: typ'] := by
+  obtain ⟨hq1, hq2, hq3⟩ := isPySpace_q q hq
+  unfold arffSplit Pat.pieces splitWs
+  unfold hdrTokOk at hn
+  unfold hdrWriteTok
+  by_cases h1 : name.1 = true
+  · simp only [h1, if_true] at hn ⊢
+    -- quoted name: `q :: E ++ [q]` ends in the non-blank `q`
+    have hT : q :: (hdrEscape q also name.2 ++ [q]) ++ w0 :: W' ++ t0 :: typ' =
+        (q :: hdrEscape q also name.2) ++ q :: w0 :: (W' ++ t0 :: typ') := by simp
+    rw [hT, splitWsGo_then_ws [] false _ q w0 _ hq1 hw0]
+    obtain ⟨h0, tl, hpieces, hflat, hhd, hdrop⟩ := ws_pieces q hq also name.2 hn
+    have hT2 : (q :: hdrEscape q also name.2) ++ [q] = qTok q also name.2 := rfl
+    rw [hT2, hpieces]
+    simp only [List.cons_append]
+    rw [splitLoop_none]
+    have hls : lstrip (q :: h0) = q :: h0 := by unfold lstrip; simp [List.dropWhile, hq1]
+    have hqc : isQuoteCh q = true := by rcases hq with h | h <;> subst h <;> decide
+    have hms : Pat.matchStart .ws (q :: h0) = false := by simp [Pat.matchStart, hq1]
+    have hn2 : ¬ ((some 2 : Option Nat) = some (0 + 1)) := by decide
+    simp only [hls, hms, hqc, hn2, if_true, reduceCtorEq, or_self, if_false, Bool.false_eq_true]
+    rw [splitLoop_token .ws (some 2) (0 + 1) q hq also name.2 (quotedOk_parts false _ hn).1 (q :: h0) tl _ hflat hhd hdrop]
+    rw [splitLoop_after_name w0 W' t0 typ' hw0 hW ht0 hst]
+  · simp only [h1, Bool.false_eq_true, if_false] at hn ⊢
+    obtain ⟨hb1, hb2, hb3⟩ := bareTokOk_name name.2 hn
+    -- bare name: no white space inside
+    rw [List.append_assoc, splitWsGo_free [] name.2 _ hb3]
+    have e1 : splitWsGo ([] ++ name.2) false ((w0 :: W') ++ t0 :: typ') = name.2 :: splitWsGo [w0] true (W' ++ t0 :: typ') := by
+      simp [splitWsGo, hw0]
+    rw [e1, splitLoop_none]
+    have hls : lstrip name.2 = name.2 := by
+      unfold lstrip
+      exact dropWhile_head_false isPySpace _ (fun c hc => hb3 c (List.mem_of_mem_head? hc))
+    cases hnm : name.2 with
+    | nil => exact absurd hnm hb1
+    | cons a t =>
+      rw [hnm] at hls hb2 hb3
+      have ha := hb2 a rfl
+      have hms : Pat.matchStart .ws (a :: t) = false := by simp [Pat.matchStart, hb3 a (by simp)]
+      have hn2 : ¬ ((some 2 : Option Nat) = some (0 + 1)) := by decide
+      have hst2 : strip (a :: t) = a :: t := strip_id _ (fun c hc => hb3 c (List.mem_of_mem_head? hc))
+        (fun c hc => hb3 c (List.mem_of_getLast? hc))
+      simp only [hls, hms, ha, hn2, hst2, reduceCtorEq, or_self, if_false, Bool.false_eq_true]
+      rw [splitLoop_after_name w0 W' t0 typ' hw0 hW ht0 hst]
+
+
+
+
+
+theorem length_dropWhile_le' {α} (p : α → Bool) (l : List α) : (l.dropWhile p).length ≤ l.length := by
+  induction l with
+  | nil => simp
+  | cons a l ih =>
+    simp only [List.dropWhile]
+    split
+    · simp only [List.length_cons]; omega
+    · simp
+
+theorem strip_self_head (t : Text) (h : strip t = t) : ∀ c, t.head? = some c → isPySpace c = false := by
+  intro c hc
+  cases t with
+  | nil => simp at hc
+  | cons a r =>
+    simp at hc; subst hc
+    cases ha : isPySpace a with
+    | false => rfl
+    | true =>
+      exfalso
+      have hlen : (strip (a :: r)).length ≤ r.length := by
+        unfold strip
+        simp only [List.dropWhile, ha, List.length_reverse]
+        calc (List.dropWhile isPySpace (List.dropWhile isPySpace r).reverse).length
+            ≤ ((List.dropWhile isPySpace r).reverse).length := length_dropWhile_le' _ _
+          _ = (List.dropWhile isPySpace r).length := by simp
+          _ ≤ r.length := length_dropWhile_le' _ _
+      rw [h] at hlen
+      simp only [List.length_cons] at hlen
+      omega
+
+theorem typeW_facts (isDense : Bool) (q : Nat) (hq : q = SQ ∨ q = DQ) (also : Nat → Bool) (t : TypeW) (h : t.ok isDense = true) :
+    t.text q also ≠ [] ∧ strip (t.text q also) = t.text q also ∧ arffEncoder isDense (t.text q also) = .ok (t.enc isDense) := by
+  cases t with
+  | numeric w =>
+    simp only [TypeW.ok, Bool.and_eq_true, beq_iff_eq] at h
+    refine ⟨?_, h.2, ?_⟩
+    · intro e; simp only [TypeW.text] at e; rw [e] at h; revert h; decide
+    · simp only [TypeW.text, TypeW.enc, arffEncoder, h.1, if_true]
+  | string w =>
+    simp only [TypeW.ok, Bool.and_eq_true, beq_iff_eq, Bool.not_eq_true', bne_iff_ne, ne_eq] at h
+    obtain ⟨⟨⟨h1, h2⟩, h3⟩, h4⟩ := h
+    refine ⟨?_, h3, ?_⟩
+    · intro e; simp only [TypeW.text] at e; rw [e] at h2; revert h2; decide
+    · simp only [TypeW.text, TypeW.enc, arffEncoder, h1, Bool.false_eq_true, if_false, h2, if_true]
+  | nominal pad levels =>
+    simp only [TypeW.ok, Bool.and_eq_true, decide_eq_true_eq] at h
+    obtain ⟨⟨h1, h2⟩, h3⟩ := h
+    refine ⟨by simp [TypeW.text], ?_, ?_⟩
+    · apply strip_id
+      · intro c hc; simp [TypeW.text] at hc; subst hc; decide
+      · intro c hc
+        simp only [TypeW.text] at hc
+        rw [getLast?_cons_concat] at hc
+        cases hc; decide
+    · simp only [TypeW.text, TypeW.enc]
+      exact arffEncoder_nominal' isDense q hq also pad levels h1 (fun x hx => List.all_eq_true.mp h2 x hx) h3
+
+theorem arffAttrs_written (isDense : Bool) (q : Nat) (hq : q = SQ ∨ q = DQ) (also : Nat → Bool) (attrs : List AttrW) (seen : List Text)
+    (hok : ∀ a ∈ attrs, a.ok isDense = true) (hnd : (attrs.map (·.name.2)).Nodup) (hseen : ∀ a ∈ attrs, a.name.2 ∉ seen) :
+    arffAttrs isDense seen (attrs.map (·.line q also)) = .ok (attrs.map (fun a => (a.name.2, a.typ.enc isDense))) := by
+  induction attrs generalizing seen with
+  | nil => rfl
+  | cons a as ih =>
+    have ha := hok a (by simp)
+    simp only [AttrW.ok, Bool.and_eq_true, beq_iff_eq, decide_eq_true_eq] at ha
+    obtain ⟨⟨⟨⟨hkw, hname⟩, hg1⟩, hg2⟩, htyp⟩ := ha
+    obtain ⟨ht1, ht2, ht3⟩ := typeW_facts isDense q hq also a.typ htyp
+    have hlen : a.kw.length = 10 := by
+      have := congrArg List.length hkw
+      rw [lowerAscii_length] at this
+      rw [this]; rfl
+    have htake : (a.line q also).take 10 = a.kw := by
+      unfold AttrW.line
+      rw [List.take_append_of_le_length (by omega), List.take_of_length_le (by omega)]
+    have hdrop : (a.line q also).drop 11 = hdrWriteTok q also a.name ++ a.gap ++ a.typ.text q also := by
+      unfold AttrW.line
+      rw [show (11 : Nat) = a.kw.length + 1 by omega, List.drop_append]
+      simp
+    cases hgap : a.gap with
+    | nil => exact absurd hgap hg1
+    | cons w0 W' =>
+      cases htx : a.typ.text q also with
+      | nil => exact absurd htx ht1
+      | cons t0 typ' =>
+        have hW : ∀ c ∈ a.gap, isPySpace c = true := fun c hc => List.all_eq_true.mp hg2 c hc
+        rw [hgap] at hW
+        have ht0 : isPySpace t0 = false := strip_self_head _ ht2 t0 (by rw [htx]; rfl)
+        have hsplit := arffSplit_attr' q hq also a.name hname w0 W' t0 typ' (hW w0 (by simp))
+          (fun c hc => hW c (by simp [hc])) ht0 (by rw [← htx]; exact ht2)
+        simp only [List.map_cons, arffAttrs, htake, hkw, if_true, hdrop, hgap, htx]
+        have hsplit' : arffSplit Pat.ws (some 2) (hdrWriteTok q also a.name ++ w0 :: W' ++ t0 :: typ') = .ok [a.name.2, t0 :: typ'] := by
+          simpa using hsplit
+        rw [hsplit']
+        simp only
+        have hns : seen.contains a.name.2 = false := by
+          cases hc : seen.contains a.name.2 with
+          | false => rfl
+          | true => simp only [List.contains_iff_mem] at hc; exact absurd hc (hseen a (by simp))
+        simp only [hns, Bool.false_eq_true, if_false]
+        rw [← htx, ht3]
+        simp only [List.map_cons, List.nodup_cons] at hnd
+        rw [ih (a.name.2 :: seen) (fun b hb => hok b (by simp [hb])) hnd.2 (by
+          intro b hb
+          simp only [List.mem_cons, not_or]
+          refine ⟨?_, hseen b (by simp [hb])⟩
+          intro e
+          exact hnd.1 (by rw [← e]; exact List.mem_map_of_mem hb))]
+
+
 end Coba.C12
